@@ -860,6 +860,9 @@ func runC16(c C16Case, cs *kit.CaseStats) error {
 		timedOut := ctx.Err() != nil
 		cancel()
 		idle := w.host.T.WaitIdle(c16Timeout)
+		if mitm != nil && idle && !timedOut {
+			mitm.Wait() // the hook may still be growing the host's chain
+		}
 		w.host.T.FailDial, w.host.T.Interpose = nil, nil
 		if timedOut || !idle {
 			cs.Inconclusive("watchdog")
@@ -1009,7 +1012,7 @@ var c16Assumptions = []string{
 
 var c16Prop = kit.Prop[C16Case]{
 	ID:          "C16",
-	Rule:        "form / renew / refresh (full and partial) between the real client and the real server: drawn allowance / collateral / proof height (valid, rejected by validation, or not fundable by host or renter), existing contract of 0..2 sectors that is confirmed, formed-but-unmined or reorganised away, basis relation (same tip; renter k blocks behind; renter on a stale fork the host applied and left; stale fork the host stored but never applied; basis unknown to the host), renter funds confirmed or unconfirmed with parents (optionally created on the renter's fork), and one disturbance (none; dial failure; renter pool failure; host chain advancing while a renter message is in flight; connection cut at each of the four message boundaries; one of the four messages corrupted by the typed MITM). Success => both parties hold the same fully signed contract, the returned set is accepted by an independent node's pool at its basis and, mined, creates exactly that contract with core's funding split. Failure => no contract recorded and SpendableOutputs / Balance().Spendable of both wallets equal their pre-attempt values, also over repeated attempts and in a fault-free follow-up after the host committed. An exchange with nothing in its way must succeed. Non-trivial = failure after the host reserved inputs, basis != host tip, or an existing contract without a state element; distinct by case hash.",
+	Rule:        "form / renew / refresh (full and partial) between the real client and the real server: drawn allowance / collateral / proof height (valid, rejected by validation, or not fundable by host or renter), existing contract of 0..2 sectors that is confirmed, formed-but-unmined or reorganised away, basis relation (same tip; renter k blocks behind; renter on a stale fork the host applied and left; stale fork the host stored but never applied; basis unknown to the host), renter funds confirmed or unconfirmed with parents (optionally created on the renter's fork, with the parent already confirmed on the host's chain or already in the host's pool, or funds already spent on the host's chain), optionally a renter view of the contract that is one revision behind, wallets fragmented into small outputs, and one disturbance (none; dial failure; renter pool failure; host chain advancing while a renter message is in flight; connection cut at each of the four message boundaries; one of the four messages corrupted by the typed MITM). Success => both parties hold the same fully signed contract, the returned set is accepted by an independent node's pool at its basis and, mined, creates exactly that contract with core's funding split. Failure => no contract recorded and SpendableOutputs / Balance().Spendable of both wallets equal their pre-attempt values, also over repeated attempts and in a fault-free follow-up after the host committed. An exchange with nothing in its way must succeed. Non-trivial = failure after the host reserved inputs, basis != host tip, or an existing contract without a state element; distinct by case hash.",
 	Assumptions: c16Assumptions,
 	Gen:         genC16,
 	Run:         runC16,
